@@ -1104,6 +1104,22 @@ static void run_line(char *line)
 		snprintf(tail, sizeof tail, "I %d %d\n", cfg_include_stack_ptr, count_fds() - fds0);
 		op_end_r(rbuf, tail);
 		free(t2);
+	} else if (!strcmp(w[0], "PSE") && n == 3) {
+		/* cfg_parse_fp() on a stream that cannot be read: 0 = a directory opened for reading, 1 = a stream opened for writing */
+		FILE *f = atoi(w[2]) ? fopen("/dev/null", "w") : fopen(".", "r");
+		int rc = -9, fds0;
+		char tail[64];
+
+		NEEDCTX(1);
+		fds0 = count_fds();
+		op_begin();
+		if (f) {
+			rc = cfg_parse_fp(CTX(1), f);
+			fclose(f);
+		}
+		snprintf(rbuf, sizeof rbuf, "R %d\n", rc);
+		snprintf(tail, sizeof tail, "I %d %d\n", cfg_include_stack_ptr, count_fds() - fds0 + (f ? 1 : 0));
+		op_end_r(rbuf, tail);
 	} else if (n == 5 && strlen(w[0]) == 2 && (w[0][0] == 'S' || w[0][0] == 'O') && strchr("IFBS", w[0][1])) {
 		char *p = unhex(w[2], NULL);
 		unsigned int idx = (unsigned int)strtoul(w[3], NULL, 10);
